@@ -29,11 +29,17 @@ def one_workload(ctx, idx, memkb, scratch, depth, torn, nest_every):
     ops = os.path.join(ctx.work, "crash-%d.ops" % idx)
     env = dict(vlib.GOENV)
     env["VERIF_SEED"] = str(ctx.seed * 1000 + idx)
-    if ctx.prop == "C20" and idx % 2 == 1:
+    if (ctx.prop == "C20" and idx % 2 == 1) or (ctx.prop in ("C01", "C02") and idx % 3 == 2):
         # growth without checkpoints in a large pool: heap pages that never reach the db file before the first crash, so
         # that recovery re-creates whole chains of pages (and can be interrupted between their writes)
         env["VERIF_CRASH_MODE"] = "grow"
         memkb = 512
+    if ctx.prop in ("C01", "C02") and idx % 6 == 5:
+        # one longer workload in the smallest pool with large rows: the heap outgrows the pool, so new heap pages are
+        # written back by evictions - page writes that extend the db file (and their torn variants)
+        env["VERIF_CRASH_STEPS"] = "70"
+        env.pop("VERIF_CRASH_MODE", None)
+        memkb = 64
     rc, out = vlib.run([vlib.VDRIVE, "crash", "run", wdir, tr, ops, str(memkb)], cwd=ctx.work, env=env, timeout=300)
     if rc != 0:
         raise Inconclusive("crash run failed rc=%d\n%s" % (rc, out[-2000:]))
@@ -83,7 +89,7 @@ def one_workload(ctx, idx, memkb, scratch, depth, torn, nest_every):
             if e["ev"] in ("WLog", "WPage", "GC"):
                 if e["io"] in probes and not probes[e["io"]].get("partial"):
                     e["probe"] = probes[e["io"]]["probe"]
-                if e["ev"] == "WLog" and (e["io"] - 1) in probes and probes[e["io"] - 1]["torn"]:
+                if e["ev"] in ("WLog", "WPage") and (e["io"] - 1) in probes and probes[e["io"] - 1]["torn"]:
                     e["torn"] = probes[e["io"] - 1]["torn"]
             f.write(json.dumps(e) + "\n")
     os.remove(tr)
